@@ -886,7 +886,7 @@ example : setMember (.prim (.bitvec 2)) (setOf [.prim (.bitvec 1), .prim (.bitve
 def exSet (is : List Int) : Expr := .set (is.map (fun i => .lit (.int i)))
 def exMax1 : Expr := .binaryApp .add (.lit (.int 9223372036854775807)) (.lit (.int 1))
 
-example : inFrag3 (.binaryApp .contains (exSet [1, 2, 2, 1]) (.lit (.int 2))) = true := by decide +kernel
+example : SFrag3 (.binaryApp .contains (exSet [1, 2, 2, 1]) (.lit (.int 2))) := inFrag3_sound _ (by decide +kernel)
 -- duplicates and order disappear in the canonical form, which is well-formed (strictly sorted)
 example : compile (litEnv exReq exEtys) (exSet [2, 1, 2])
     = .ok (.some (.setCons (.prim (.bitvec 1)) (.setCons (.prim (.bitvec 2)) (.setNil .bitvec64)))) := by decide +kernel
